@@ -269,7 +269,9 @@ TEnd == /\ l <= Len(T) /\ Ev.ev = "end"
         \* (only for the goal-directed generators of valid forms; the collision and error alphabets of C02 / C17 contain
         \*  refusals the specification does not transcribe, e.g. a question named like the form)
         \*  Source = "suite": executions recorded from the repository's own tests, which include refusals outside the model)
-        /\ Check("valid_form_accepted", (outcome.status = "done" /\ Prop \in {"C03", "C04", "C05", "C10"} /\ Source # "suite") => Ev.status = "ok")
+        \*  Source = "ok": C02's run over the generator of accepted forms (its collision forms run with Source = "gen")
+        /\ Check("valid_form_accepted", (outcome.status = "done" /\ (Prop \in {"C03", "C04", "C05", "C10"} \/ (Prop = "C02" /\ Source = "ok")) /\ Source # "suite")
+                                         => Ev.status = "ok")
         /\ (Prop = "C17" => C17Env)
         /\ (Ev.status = "ok" =>
               /\ (Prop = "C04" => C04Env)
